@@ -37,7 +37,7 @@ func init() {
 		Batches:     func(tier string) int { return 16 },
 		Parallel:    func(tier string) int { return 8 },
 		Require: func(tier string) map[string]int64 {
-			return map[string]int64{"scenarios": 600, "directed_runs": 200, "directed_achieved": 15, "quiescent_checks": 600, "closed_checks": 60, "shared_session_scenarios": 60, "store_faults": 40, "panics_injected": 20, "panicking_write_callbacks": 10, "failing_calls": 40, "stale_aborts": 20, "waits_without_deadline": 20, "abandoned_use_sessions": 30, "stream_polls": 60, "stream_churns": 10, "blocked_next_closed_by_peer": 30,
+			return map[string]int64{"scenarios": 600, "directed_runs": 200, "directed_achieved": 15, "quiescent_checks": 600, "closed_checks": 60, "shared_session_scenarios": 60, "store_faults": 40, "panics_injected": 20, "panicking_write_callbacks": 10, "failing_calls": 40, "stale_aborts": 20, "waits_without_deadline": 20, "waiters_parked_at_shutdown": 200, "abandoned_use_sessions": 30, "stream_polls": 60, "stream_churns": 10, "blocked_next_closed_by_peer": 30,
 				"cancelled_contexts": 60, "hook_events": 20000, "interleavings_recorded": 300}
 		},
 		WorkerTimeoutSec: func(tier string) int {
@@ -225,6 +225,9 @@ func fullDump() string {
 }
 
 func runC16(c *fw.Ctx) {
+	if !c16ShutdownWaiters(c, c.N(2, 8)) {
+		return
+	}
 	n := c.N(1280, 25600) / c.NBatches
 	holdNo := c.Batch * 7919
 	for q := 0; q < n; q++ {
@@ -280,6 +283,125 @@ var c16StepPoints = map[string][]string{
 	"with_txn_panic":  {"session.start.reserved", "begin.acquired", "session.abort.locked", "abort.locked", "token.release"},
 	"next":            {"stream.before_wait", "stream.woken"},
 	"close":           {"close.killed", "close.streams_closed", "close.done"},
+}
+
+// c16ShutdownWaiters is the directed family "shutdown wakes every parked
+// writer": a holder (engine transaction or session transaction) keeps the
+// writer slot, a second caller parks in the slot acquisition through one of the
+// public entry points with one of the context kinds an application uses (none,
+// cancellable but never cancelled, far deadline, session context), then the
+// engine is closed while the holder still holds. The waiter must return the
+// closed error; a waiter that is still parked in the acquisition 5 s after Close
+// returned (the holder never releases, so nothing but the shutdown can end the
+// wait before the one-minute acquisition timeout) is a violation. The verdict is
+// taken from the goroutine's stack, the 5 s only bound the observation.
+func c16ShutdownWaiters(c *fw.Ctx, rounds int) bool {
+	kinds := []string{"begin/background", "begin/cancellable", "begin/far-deadline", "insert/background", "insert/cancellable", "session-start", "update/session-context-cancellable"}
+	for round := 0; round < rounds; round++ {
+		for h := 0; h < 2; h++ {
+			for _, kind := range kinds {
+				store := &faultStore{cat: lungo.NewCatalog()}
+				client, engine, err := lungo.Open(nil, lungo.Options{Store: store, ExpireInterval: 1 << 40})
+				if err != nil {
+					c.Inconclusive("open engine: " + err.Error())
+					return true
+				}
+				coll := client.Database("d").Collection("c")
+				// holder
+				var release func()
+				if h == 0 {
+					t, err := engine.Begin(context.Background(), true)
+					if err != nil {
+						c.Inconclusive("holder begin: " + err.Error())
+						engine.Close()
+						return true
+					}
+					release = func() { engine.Abort(t) }
+				} else {
+					hs, _ := client.StartSession()
+					if err := hs.StartTransaction(); err != nil {
+						c.Inconclusive("holder session: " + err.Error())
+						engine.Close()
+						return true
+					}
+					release = func() { hs.EndSession(context.Background()) }
+				}
+				// waiter
+				res := make(chan error, 1)
+				wctx, cancel := context.WithCancel(context.Background())
+				fctx, fcancel := context.WithTimeout(context.Background(), 10*time.Minute)
+				ws, _ := client.StartSession()
+				go func() {
+					switch kind {
+					case "begin/background":
+						_, err := engine.Begin(context.Background(), true)
+						res <- err
+					case "begin/cancellable":
+						_, err := engine.Begin(wctx, true)
+						res <- err
+					case "begin/far-deadline":
+						_, err := engine.Begin(fctx, true)
+						res <- err
+					case "insert/background":
+						_, err := coll.InsertOne(context.Background(), bson.D{{Key: "w", Value: int32(1)}})
+						res <- err
+					case "insert/cancellable":
+						_, err := coll.InsertOne(wctx, bson.D{{Key: "w", Value: int32(1)}})
+						res <- err
+					case "session-start":
+						res <- ws.StartTransaction()
+					default:
+						res <- lungo.WithSession(wctx, ws, func(sc lungo.ISessionContext) error {
+							_, err := coll.UpdateOne(sc, bson.D{}, bson.D{{Key: "$set", Value: bson.D{{Key: "w", Value: int32(2)}}}})
+							return err
+						})
+					}
+				}()
+				// let it park (observed, not assumed: counted from the dump)
+				parked := false
+				for i := 0; i < 50 && !parked; i++ {
+					time.Sleep(2 * time.Millisecond)
+					parked = strings.Contains(fullDump(), "dbkit.(*Semaphore).Acquire")
+				}
+				if parked {
+					c.Count("waiters_parked_at_shutdown", 1)
+				}
+				closeDone := make(chan struct{})
+				go func() { engine.Close(); close(closeDone) }()
+				c.Eval(1)
+				witness := map[string]interface{}{"waiter": kind, "holder": []string{"engine transaction", "session transaction"}[h]}
+				verdict := true
+				select {
+				case err := <-res:
+					if !errors.Is(err, lungo.ErrEngineClosed) {
+						c.Violate("closed:waiter-result", fmt.Sprintf("a writer (%s) that was waiting for the writer slot when the engine was closed returned %v instead of the closed error", kind, err), witness)
+					}
+				case <-time.After(5 * time.Second):
+					d := fullDump()
+					select {
+					case <-closeDone:
+						if strings.Contains(d, "dbkit.(*Semaphore).Acquire") {
+							witness["goroutines"] = firstFrames(d, 120)
+							c.Violate("closed:waiter-not-woken", fmt.Sprintf("a writer (%s) waiting for the writer slot is still parked in the acquisition 5 s after Engine.Close returned: the shutdown did not wake it", kind), witness)
+						} else {
+							c.Inconclusive("shutdown waiter did not return but is not parked in the slot acquisition: " + firstFrames(d, 40))
+						}
+					default:
+						c.Inconclusive("Engine.Close did not return within 5 s in the shutdown-waiter case: " + firstFrames(d, 40))
+					}
+					verdict = false
+				}
+				cancel()
+				fcancel()
+				release()
+				ws.EndSession(context.Background())
+				if !verdict {
+					return false // goroutines abandoned
+				}
+			}
+		}
+	}
+	return true
 }
 
 // c16Points lists the hook points a script can reach.
